@@ -30,7 +30,7 @@ ASSUMPTIONS = ["ambiguous encodings (bool, integral floats for Discrete) are not
                "Discrete = Python int or numpy integer in [0, n)"]
 REQUIRED = ["C17:malformed-rejected-in-time", "C17:no-effect-on-reject", "C17:malformed-never-executed", "C17:allocation-denoted",
             "C17:target-reached", "C17:residual-in-cash"]
-REQUIRED_CATS = ["fit-transformers", "per-contract-bounds", "second-episode", "box", "discrete", "with-cash", "nr-contracts", "delay:1", "delay:2"]
+REQUIRED_CATS = ["bounds-exclude-zero", "fit-transformers", "per-contract-bounds", "second-episode", "box", "discrete", "with-cash", "nr-contracts", "delay:1", "delay:2"]
 REQUIRED_HITS = ["Broker.transact", "Broker.rebalance"]
 TECHNIQUE = "runtime monitoring with fault injection: malformed actions injected into episodes; Broker.transact hook proves nothing executed"
 LEVEL_TEXT = ("Fault enumeration over the kinds of malformed action x space type x delay, each injected at a random step of a real "
@@ -77,13 +77,17 @@ def case(ctx, i, tier):
             # bounds that differ between contracts (arrays)
             los = np.array([rng.choice([0.0, -1.0, -0.5]) for _ in contracts]) * scale
             his = np.array([rng.choice([0.5, 1.0, 2.0]) for _ in contracts]) * scale
+            if d == 0 and rng.random() < 0.5:
+                # one contract must always be held: zero is OUTSIDE its bounds
+                los[rng.randrange(m)] = 0.1 * scale
+                ctx.cat("bounds-exclude-zero")
             sp_ = BoxPortfolio(contracts, los, his, as_weights=asw)
             ctx.cat("per-contract-bounds")
         else:
             los = np.full(m, lo * scale, dtype=float)
             his = np.full(m, hi * scale, dtype=float)
             sp_ = BoxPortfolio(contracts, lo * scale, hi * scale, as_weights=asw)
-        valid = lambda: np.array([rng.uniform(max(l, -0.3 * scale), min(h, 0.4 * scale)) for l, h in zip(los, his)])
+        valid = lambda: np.array([rng.uniform(max(l, -0.3 * scale), max(min(h, 0.4 * scale), max(l, -0.3 * scale))) for l, h in zip(los, his)])
         denote = lambda a: list(a)
         j_hi = rng.randrange(m)
         one_hi = np.array([min(max(0.1 * scale, l), h) for l, h in zip(los, his)])
@@ -98,6 +102,9 @@ def case(ctx, i, tier):
                 ("nan", np.array([np.nan] * m)), ("one-nan", np.where(np.arange(m) == rng.randrange(m), np.nan, 0.1)),
                 ("2d", np.array([[0.1] * m])), ("none", None), ("string", "x"), ("inf", np.array([np.inf] * m)),
                 ("scalar", 0.1) if m > 1 else ("-inf", np.array([-np.inf] * m))]
+        if np.any(los > 0) or np.any(his < 0):
+            # the all-zero vector is then out of bounds too (it merely looks like the null placeholder)
+            bads = [("all-zero", np.zeros(m)), ("all-zero-list", [0.0] * m)] + bads[:2]
     tr = Transmitter(grid)
     tr.add_events(evs)
     sink = ep.Sink()
